@@ -195,6 +195,8 @@ func matchNPMRequirement(req VersionKey, vers []Version) []Version {
 // matchRequirement is a default implementation of MatchRequirement, appropriate
 // for many systems.
 func matchRequirement(req VersionKey, versions []Version) []Version {
+	// The list can be in any order: put it in the system's order first.
+	SortVersions(versions)
 	constraint, err := req.System.Semver().ParseConstraint(req.Version)
 	if err != nil {
 		// Fall back to string matching.
